@@ -544,6 +544,31 @@ fn mutate(src: &str, stride: usize, mut f: impl FnMut(&str, String)) {
             }
         }
     }
+    // MANY KEYS: 1..16 further key=value pairs (unknown keys, and the encoding's own pairs repeated) appended to
+    // every field section of a text encoding; a fixed-capacity field table overflows only with such inputs
+    if let Some(colon) = src.find(':') {
+        let body = &src[colon + 1..];
+        let own: Vec<&str> = body.split(';').filter(|p| p.matches('=').count() == 1 && !p.contains('[')).collect();
+        for extra in 1..=16usize {
+            let unk: String = (0..extra).map(|k| format!(";zz{k}={k}")).collect();
+            f("manykeys", format!("{src}{unk}"));
+            if !own.is_empty() {
+                let rep: String = (0..extra).map(|k| format!(";{}", own[k % own.len()])).collect();
+                f("manykeys", format!("{src}{rep}"));
+                // inside the first field section (for levels / queues: inside the first order of the list)
+                if let Some(first_semi) = src.find(';') {
+                    f("manykeys", format!("{}{}{}", &src[..first_semi], rep, &src[first_semi..]));
+                }
+            }
+        }
+    }
+    if src.starts_with('{') && src.len() > 2 {
+        // JSON objects: further members, unknown and repeated, at the front of the outer object
+        for extra in [1usize, 4, 11, 16] {
+            let unk: String = (0..extra).map(|k| format!("\"zz{k}\":{k},")).collect();
+            f("manykeys", format!("{{{}{}", unk, &src[1..]));
+        }
+    }
     // very long plain runs
     for &at in seps.iter().take(6) {
         f("long", format!("{}{}{}", &src[..at], "7".repeat(5000), &src[at..]));
